@@ -692,6 +692,105 @@ example : (IR.paragraph { emPara with
       kids := [.text "a\nbb cc".toList, .box 0 0 false [.text "ddd".toList], .text " ee".toList] }).toOption.map
     (fun ls => ls.map (fun l => (l.x, l.w))) = some [(60, 10), (0, 20), (0, 50), (50, 20)] := by decide +kernel
 
+/-! ### nested inline boxes: stacking and containment at document level -/
+
+/-- **nested inline boxes: the line lies inside the block** (ltr, every `text-align-all` /
+`text-align-last`, every `white-space`, nesting and spacing): the line box `get_next_linebox` returns
+is at the `position_y` it was given, one line-height high or a phantom box, starts at the block's
+content edge or to its right and — when it is not wider than the block — ends inside it; a wider line
+starts at the content edge. -/
+theorem inline_line_inside_block (p : IR.Para) (skip : Option IR.Skip) (y : Rat) (first : Bool) (l : IR.OutLine)
+    (h : IR.nextLine p skip y first = .ok (some l)) :
+    l.y = y ∧ (l.h = 0 ∨ l.h = p.lineHeight) ∧
+    (l.w ≤ p.width → p.cbx ≤ l.x ∧ l.x + l.w ≤ p.cbx + p.width) ∧ (p.width < l.w → l.x = p.cbx) := by
+  unfold IR.nextLine at h
+  simp only [Except.bind] at h
+  split at h
+  · cases h
+  · split at h
+    · cases h
+    · split at h
+      · cases h
+      · rename_i lo hlo
+        split at h
+        · cases h
+          exact ⟨rfl, Or.inl rfl, fun hle => ⟨by grind, by grind⟩, fun _ => rfl⟩
+        · split at h
+          · cases h
+          · rename_i rl hrl
+            simp only [Except.map] at h
+            split at h
+            · cases h
+            · rename_i r hta
+              cases h
+              obtain ⟨off, line'⟩ := r
+              have hr := C09L.align_offset_range p.align _ line' _ _ off _ hta
+              refine ⟨rfl, Or.inr rfl, fun hle => ?_, fun hlt => ?_⟩
+              · simp only at hle ⊢
+                by_cases hge : lo.w - rl.2 ≥ p.width
+                · have := hr.1 hge; subst this; constructor <;> grind
+                · have := hr.2 (by grind); constructor <;> grind
+              · simp only at hlt ⊢
+                have := hr.1 (by grind); subst this; grind
+
+example : (IR.nextLine seedShapePara none 0 true).toOption.map (fun o => o.map (fun l => (l.x, l.w))) =
+    some (some (0, 70)) := by decide +kernel
+/-- lines of nested inline boxes stacked from `y`: each starts where the previous one ends -/
+def InlineStacked : Rat → List IR.OutLine → Prop
+  | _, [] => True
+  | y, l :: ls => l.y = y ∧ InlineStacked (l.y + l.h) ls
+
+/-- **paragraph of nested inline boxes: stacked without gap or overlap, every line inside the block**
+(document-level form of `stack` + `content_inside_block` for `Model/InlineRun`, every `white-space`
+value): the line boxes `iter_line_boxes` yields start at `y`, each next one where the previous ends;
+each is one line-height high or a phantom box, and lies between the block's content edges unless it is
+wider than the block (then it starts at the content edge). -/
+theorem inline_paragraph_stacked_inside (p : IR.Para) : ∀ (fuel : Nat) (skip : Option IR.Skip) (y : Rat) (first : Bool)
+    (ls : List IR.OutLine), IR.iterLines p fuel skip y first = some (.ok ls) →
+    InlineStacked y ls ∧ ∀ l ∈ ls, (l.h = 0 ∨ l.h = p.lineHeight) ∧
+      (l.w ≤ p.width → p.cbx ≤ l.x ∧ l.x + l.w ≤ p.cbx + p.width) ∧ (p.width < l.w → l.x = p.cbx)
+  | 0, _, _, _, _, h => by cases h
+  | fuel + 1, skip, y, first, ls, h => by
+    unfold IR.iterLines at h
+    cases hn : IR.nextLine p skip y first with
+    | error e => rw [hn] at h; cases h
+    | ok o =>
+      rw [hn] at h
+      cases o with
+      | none => simp only at h; cases h; exact ⟨trivial, by intro l hl; cases hl⟩
+      | some line =>
+        simp only at h
+        obtain ⟨hy, hh, hin, hout⟩ := inline_line_inside_block p skip y first line hn
+        cases hr : line.resume with
+        | none =>
+          rw [hr] at h; simp only at h; cases h
+          refine ⟨⟨hy, trivial⟩, ?_⟩
+          intro l hl
+          simp only [List.mem_singleton] at hl
+          subst hl
+          exact ⟨hh, hin, hout⟩
+        | some r =>
+          rw [hr] at h
+          simp only at h
+          cases hi : IR.iterLines p fuel (some r) (line.y + line.h) false with
+          | none => rw [hi] at h; cases h
+          | some res =>
+            rw [hi] at h
+            cases res with
+            | error e => cases h
+            | ok rest =>
+              simp only [Option.map, Except.map] at h
+              cases h
+              have ih := inline_paragraph_stacked_inside p fuel (some r) _ false rest hi
+              refine ⟨⟨hy, ih.1⟩, ?_⟩
+              intro l hl
+              rcases List.mem_cons.mp hl with rfl | hm
+              · exact ⟨hh, hin, hout⟩
+              · exact ih.2 l hm
+
+example : (IR.iterLines seedShapePara 30 none 0 true).map (fun r => r.toOption.map (fun ls => ls.map (fun l => (l.y, l.h, l.x, l.w)))) =
+    some (some [(0, 10, 0, 70), (10, 10, 0, 30), (20, 10, 0, 50)]) := by decide +kernel
+
 /-! ### from the source text to the line (`Model/InlineSource`) -/
 
 /-- **no emptied text box reaches the line**: whatever the source (runs of spaces, newlines,
@@ -741,6 +840,48 @@ example : IS.processedText .nowrap "aa  \n bb\ncc ".toList false = "aa bb cc ".t
       (IS.processedText .nowrap "aa  \n bb\ncc ".toList false) (.fin 30) true false).toOption.map (·.resume) = some none := by
   decide +kernel
 
+/-- **canonical texts are what white-space processing leaves** (the hypothesis of `greedy` and
+`heuristic_transparent`, proved from the source): under `white-space: normal | nowrap`, for every source
+text of a text box — newlines, runs of spaces, leading and trailing white space — and whatever
+collapsible space precedes it, the processed text without its single leading / trailing space is
+`Canonical`. -/
+theorem processed_text_canonical (ws : WS) (h : ws = .normal ∨ ws = .nowrap) (t : Text) (f : Bool) :
+    Canonical (rstripSp (lstripSp (IS.processedText ws t f))) :=
+  IS.processed_canonical ws h t f
+
+/-- **greedy, from the source text**: under `white-space: normal` (normal `word-break` / `overflow-wrap`,
+`font-size > 0`), for every source text and every available width, `split_first_line` — with or without
+its prefix heuristic — gives exactly the first-fit line of the words the source holds. -/
+theorem greedy_from_source (heur : Bool) (st : Style) (t : Text) (f : Bool) (w : Rat) (a b : Bool)
+    (hws : st.ws = .normal) (hwb : st.wb = .normal) (how : st.ow = .normal) (hfs : 0 < st.fs) :
+    splitFirstLineH heur st (rstripSp (lstripSp (IS.processedText .normal t f))) (.fin w) a b =
+      .ok (firstFit st (rstripSp (lstripSp (IS.processedText .normal t f))) w) :=
+  greedy heur st _ w a b (by rw [hws]; decide) hwb how hfs (IS.processed_canonical .normal (Or.inl rfl) t f)
+
+/-- **the first line of a paragraph, from the source** (composition of `process_whitespace`,
+`skip_first_whitespace` and `split_first_line`): when the processed text of the paragraph's text box does
+not end with a space, `skip_first_whitespace` hands `split_text_box` the text without its leading space,
+and `split_first_line` answers with its first-fit line. -/
+theorem first_line_from_source (st : Style) (t : Text) (f : Bool) (w : Rat) (a b : Bool)
+    (hws : st.ws = .normal) (hwb : st.wb = .normal) (how : st.ow = .normal) (hfs : 0 < st.fs)
+    (hne : IS.processedText .normal t f ≠ [])
+    (hend : (lstripSp (IS.processedText .normal t f)).getLast? ≠ some ' ') :
+    ∃ k, skipFirstWhitespace .normal (IS.processedText .normal t f) 0 = some k ∧
+      splitFirstLine st ((IS.processedText .normal t f).drop k) (.fin w) a b =
+        .ok (firstFit st ((IS.processedText .normal t f).drop k) w) := by
+  obtain ⟨k, hk, hdrop⟩ := IS.skipFirst_is_lstrip .normal (by decide) _ hne
+  refine ⟨k, hk, ?_⟩
+  rw [hdrop]
+  have hcan := IS.processed_canonical .normal (Or.inl rfl) t f
+  rw [rstripSp_of_last_ne hend] at hcan
+  exact greedy true st _ w a b (by rw [hws]; decide) hwb how hfs hcan
+
+example : rstripSp (lstripSp (IS.processedText .normal "  aaa \n bbb   ccc\ndd ".toList true)) = "aaa bbb ccc dd".toList ∧
+    firstFit { ws := .normal, wb := .normal, ow := .normal, fs := 10 } "aaa bbb ccc dd".toList 75 =
+      { length := 7, resume := some 8, width := 70, text := "aaa bbb".toList } := by decide +kernel
+example : IS.processedText .normal " aaa\nbbb".toList false ≠ [] ∧
+    (lstripSp (IS.processedText .normal " aaa\nbbb".toList false)).getLast? ≠ some ' ' ∧
+    skipFirstWhitespace .normal (IS.processedText .normal " aaa\nbbb".toList false) 0 = some 1 := by decide +kernel
 /-- the source `aaa <b> </b>bbb` under `white-space: normal`: the space of `<b>` collapses with the one
 before it, the emptied text box is removed and the empty `<b>` carries `trailing_collapsible_space`
 (`^`) — the break opportunity `split_inline_box` uses (seed C09-8 loses the flag on boxes left without
